@@ -232,6 +232,7 @@ def inlined_view(prog, fn, depth=2, keep=()):
         return out
 
     changed = [False]
+    caller_names = {t.id for t in ast.walk(fn.node) if isinstance(t, ast.Name)} | set(fn.params)
 
     def splice(stmts, level):
         res = []
@@ -262,8 +263,9 @@ def inlined_view(prog, fn, depth=2, keep=()):
                 res.append(st)
                 continue
             sub = dict(zip(params, c.args))
-            locs = {t.id for x in walk_fn(h) for t in ast.walk(x) if isinstance(t, ast.Name) and
-                    isinstance(t.ctx, ast.Store)} - set(sub)
+            # the helper's own locals keep their names unless the caller uses the same name for something else
+            locs = ({t.id for x in walk_fn(h) for t in ast.walk(x) if isinstance(t, ast.Name) and
+                     isinstance(t.ctx, ast.Store)} - set(sub)) & caller_names
 
             class S(ast.NodeTransformer):
                 def visit_Name(self, node):
